@@ -168,3 +168,141 @@ impl Rng {
         self.below(den) < num
     }
 }
+
+// --------------------------------------------------------------------------- layouts
+
+/// A layout descriptor: parent shape + memory order, one slice per axis, an axis permutation.
+#[derive(Clone, Debug)]
+pub struct Lay {
+    pub pshape: Vec<usize>,
+    pub forder: bool,
+    pub sl: Vec<(isize, isize, isize)>,
+    pub perm: Vec<usize>,
+}
+
+impl Lay {
+    pub fn from_json(v: &Value) -> Lay {
+        let pshape: Vec<usize> = jints(&v["pshape"]).into_iter().map(|x| x as usize).collect();
+        let forder = jstr(v, "order", "C") == "F";
+        let sl: Vec<(isize, isize, isize)> = match v.get("sl").and_then(|x| x.as_array()) {
+            Some(a) if !a.is_empty() => a.iter().map(|t| { let t = jints(t); (t[0] as isize, t[1] as isize, t[2] as isize) }).collect(),
+            _ => pshape.iter().map(|&d| (0, d as isize, 1)).collect(),
+        };
+        let perm: Vec<usize> = match v.get("perm").and_then(|x| x.as_array()) {
+            Some(a) if !a.is_empty() => a.iter().map(|x| x.as_i64().unwrap() as usize).collect(),
+            _ => (0..pshape.len()).collect(),
+        };
+        Lay { pshape, forder, sl, perm }
+    }
+
+    pub fn to_json(&self) -> Value {
+        json!({"pshape": self.pshape, "order": if self.forder {"F"} else {"C"},
+               "sl": self.sl.iter().map(|&(a, b, c)| json!([a, b, c])).collect::<Vec<_>>(), "perm": self.perm})
+    }
+
+    /// The trivial layout of a freshly allocated array of this logical shape.
+    pub fn plain(shape: &[usize], forder: bool) -> Lay {
+        Lay { pshape: shape.to_vec(), forder, sl: shape.iter().map(|&d| (0, d as isize, 1)).collect(), perm: (0..shape.len()).collect() }
+    }
+
+    /// Logical shape of the view.
+    pub fn shape(&self) -> Vec<usize> {
+        let sliced: Vec<usize> = self.sl.iter().map(|&(a, b, c)| { let m = (b - a).max(0) as usize; let s = c.unsigned_abs(); (m + s - 1) / s }).collect();
+        self.perm.iter().map(|&k| sliced[k]).collect()
+    }
+
+    pub fn size(&self) -> usize {
+        self.shape().iter().product()
+    }
+
+    /// Parent buffer: cell with memory address k holds `pad(k)`.
+    pub fn parent<T: Clone>(&self, pad: impl Fn(usize) -> T) -> ArrayD<T> {
+        let n: usize = self.pshape.iter().product();
+        let v: Vec<T> = (0..n).map(pad).collect();
+        if self.forder {
+            ArrayD::from_shape_vec(IxDyn(&self.pshape).f(), v).unwrap()
+        } else {
+            ArrayD::from_shape_vec(IxDyn(&self.pshape), v).unwrap()
+        }
+    }
+
+    pub fn view_mut<'a, T>(&self, parent: &'a mut ArrayD<T>) -> ArrayViewMutD<'a, T> {
+        let mut v = parent.view_mut();
+        for (ax, &(a, b, c)) in self.sl.iter().enumerate() {
+            v.slice_axis_inplace(Axis(ax), Slice::new(a, Some(b), c));
+        }
+        v.permuted_axes(IxDyn(&self.perm))
+    }
+
+    pub fn view<'a, T>(&self, parent: &'a ArrayD<T>) -> ArrayViewD<'a, T> {
+        let mut v = parent.view();
+        for (ax, &(a, b, c)) in self.sl.iter().enumerate() {
+            v.slice_axis_inplace(Axis(ax), Slice::new(a, Some(b), c));
+        }
+        v.permuted_axes(IxDyn(&self.perm))
+    }
+
+    /// Parent with the view's logical elements (row-major order) set to `data`.
+    pub fn build<T: Clone>(&self, data: &[T], pad: impl Fn(usize) -> T) -> ArrayD<T> {
+        let mut p = self.parent(pad);
+        {
+            let mut v = self.view_mut(&mut p);
+            assert_eq!(v.len(), data.len(), "layout size {:?} vs data {}", self, data.len());
+            for (dst, src) in v.iter_mut().zip(data.iter()) {
+                *dst = src.clone();
+            }
+        }
+        p
+    }
+}
+
+/// Observed geometry of a view relative to the parent's buffer start (in elements).
+pub fn geom<T, D: Dimension>(base: *const T, v: &ArrayBase<impl ndarray::RawData<Elem = T>, D>) -> Value {
+    // the pointer of an empty view is meaningless (it may dangle): project it to 0
+    let off = if v.len() == 0 { 0 } else { (v.as_ptr() as isize - base as isize) / (std::mem::size_of::<T>().max(1) as isize) };
+    json!({"ptr": off, "shape": v.shape(), "strides": v.strides()})
+}
+
+pub fn mem_of<T: Clone>(p: &ArrayD<T>) -> Vec<T> {
+    p.as_slice_memory_order().expect("parent is contiguous").to_vec()
+}
+
+/// Random layout descriptor whose view has logical shape `shape`.
+pub fn random_lay(rng: &mut Rng, shape: &[usize], fancy: bool) -> Lay {
+    let nd = shape.len();
+    let forder = rng.chance(1, 2);
+    if !fancy {
+        return Lay::plain(shape, forder);
+    }
+    // choose a permutation; the pre-permutation (sliced) shape is shape[inv perm]
+    let mut perm: Vec<usize> = (0..nd).collect();
+    if rng.chance(1, 2) {
+        for k in (1..nd).rev() {
+            let j = rng.below(k as u64 + 1) as usize;
+            perm.swap(k, j);
+        }
+    }
+    let mut sliced = vec![0usize; nd];
+    for (k, &p) in perm.iter().enumerate() {
+        sliced[p] = shape[k];
+    }
+    let mut pshape = Vec::new();
+    let mut sl = Vec::new();
+    for &d in &sliced {
+        let step: isize = *rng.pick(&[1, 1, 2, -1, -2, 3, -3]);
+        let a = step.unsigned_abs();
+        let lead = rng.below(3) as usize;
+        let trail = rng.below(3) as usize;
+        // m elements covered so that ceil(m/a) == d
+        let m = if d == 0 { 0 } else { (d - 1) * a + 1 + rng.below(a as u64) as usize };
+        pshape.push(lead + m + trail);
+        sl.push((lead as isize, (lead + m) as isize, step));
+    }
+    Lay { pshape, forder, sl, perm }
+}
+
+/// (ptr, len, stride) of a 1-D view relative to `base`; the pointer of an empty view is projected to 0.
+pub fn view1_geom<T>(base: *const T, ptr: *const T, len: usize, stride: isize) -> Value {
+    let off = if len == 0 { 0 } else { (ptr as isize - base as isize) / (std::mem::size_of::<T>().max(1) as isize) };
+    json!({"ptr": off, "len": len, "stride": stride})
+}
